@@ -590,11 +590,19 @@ fn build_logical_plan_from_subquery_in_scope(
     database: &mut SparqlDatabase,
     graph_scope: &GraphTerm,
 ) -> Result<LogicalOperator, String> {
+    // A subquery starts a fresh variable scope, so a graph variable bound by the
+    // enclosing GRAPH is not bound inside it: a scan scoped by that variable would
+    // enumerate every named graph. The enclosing Graph operator supplies the active
+    // graph through the execution context instead.
+    let inner_scope = match graph_scope {
+        GraphTerm::Variable(_) => &GraphTerm::Default,
+        scope => scope,
+    };
     let inner_plan = build_logical_plan_from_group_in_scope(
         &subquery.query.pattern,
         prefixes,
         database,
-        graph_scope,
+        inner_scope,
     )?;
     let projection = if subquery.query.variables == vec![("*", "*", None)] {
         None
